@@ -23,7 +23,7 @@ def main():
         src = open(f).read()
         if 'MANIFEST_ENTRY' not in src:
             continue
-        ns = {}
+        ns = {'META': {}}      # lines after the entry may also refresh META (evidence texts); not needed here
         # MANIFEST_ENTRY is a literal dict at the end of the file
         start = src.index('MANIFEST_ENTRY')
         exec(src[start:], ns)
